@@ -39,32 +39,25 @@ func (r *balanceReporterCollapsed) Flush() error {
 	return r.output.Flush()
 }
 
-func getJump(node *shared.TreeNode) []string {
-	if len(node.Children) == 0 {
-		return []string{node.Name}
-	}
+// getJump walks the chain of sole children starting at node and returns the names
+// along the chain together with the node the chain ends at (a leaf or a fork)
+func getJump(node *shared.TreeNode) ([]string, *shared.TreeNode) {
 	if len(node.Children) == 1 {
-		return append([]string{node.Name}, getJump(node.FirstChild())...)
+		names, last := getJump(node.FirstChild())
+		return append([]string{node.Name}, names...), last
 	}
-	return []string{}
+	return []string{node.Name}, node
 }
 
 func printNodeCollapsed(node *shared.TreeNode, level int, output io.Writer) error {
 	var err error
 	for _, key := range node.Keys() {
 		child := node.Children[key]
-
-		jump := getJump(child)
-		if len(jump) > 0 {
-			if _, err = fmt.Fprintf(output, "%10.2f | %s%s\n", child.Total, strings.Repeat("  ", level), strings.Join(jump, "/")); err != nil {
-				return err
-			}
-			continue
-		}
-		if _, err = fmt.Fprintf(output, "%10.2f | %s%s\n", child.Total, strings.Repeat("  ", level), child.Name); err != nil {
+		jump, last := getJump(child)
+		if _, err = fmt.Fprintf(output, "%10.2f | %s%s\n", child.Total, strings.Repeat("  ", level), strings.Join(jump, "/")); err != nil {
 			return err
 		}
-		if err = printNodeCollapsed(child, level+1, output); err != nil {
+		if err = printNodeCollapsed(last, level+1, output); err != nil {
 			return err
 		}
 	}
